@@ -31,7 +31,11 @@ func (f Nth) remove(value any) (out any, changed bool) {
 			i = len(tv) + i
 		}
 		if 0 <= i && i < len(tv) {
-			out = append(tv[:i], tv[i+1:]...)
+			// A new slice as the other removers (Union, Slice, Filter) build: the
+			// slice handed in may be referenced from elsewhere.
+			ns := make([]any, 0, len(tv)-1)
+			ns = append(ns, tv[:i]...)
+			out = append(ns, tv[i+1:]...)
 			changed = true
 		}
 	case gen.Array:
@@ -39,7 +43,9 @@ func (f Nth) remove(value any) (out any, changed bool) {
 			i = len(tv) + i
 		}
 		if 0 <= i && i < len(tv) {
-			out = append(tv[:i], tv[i+1:]...)
+			ns := make(gen.Array, 0, len(tv)-1)
+			ns = append(ns, tv[:i]...)
+			out = append(ns, tv[i+1:]...)
 			changed = true
 		}
 	case RemovableIndexed:
